@@ -471,6 +471,15 @@ func reifyValue(
 			return reflect.Value{}, err
 		}
 		return pointerize(t, baseType, v), nil
+
+	case reflect.Array:
+		// (an array that is a map entry or sits behind a nil pointer: there
+		// is no value to fill in place, as there is for a struct field)
+		v, err := reifyArray(opts, reflect.New(baseType).Elem(), baseType, val)
+		if err != nil {
+			return reflect.Value{}, err
+		}
+		return pointerize(t, baseType, v), nil
 	}
 
 	return reifyPrimitive(opts, val, t, baseType)
